@@ -3,6 +3,7 @@ import os
 import re
 import signal
 import subprocess
+import threading
 import time
 
 INT_TYPES = {}
@@ -258,9 +259,8 @@ class Script:
             return self.divcache[key]
         q = self.fresh("q")
         r = self.fresh("r")
-        self.lines.append("(declare-fun %s () Int)" % q)
-        self.lines.append("(declare-fun %s () Int)" % r)
-        self.lines.append("(assert (and (= %s (+ (* %d %s) %s)) (<= 0 %s) (< %s %d)))" % (lit(a), d, q, r, r, r, d))
+        # rendered per dialect: fresh q, r + division lemma ("lemma", what cvc5 gets) or SMT-LIB div / mod ("divmod", what z3 gets)
+        self.lines.append(("div", lit(a), d, q, r))
         self.n_divlemmas += 1
         self.divcache[key] = (q, r)
         return q, r
@@ -268,9 +268,21 @@ class Script:
     def logic(self):
         return "QF_NIA" if self.nonlinear else "QF_LIA"
 
-    def render(self, extra_lines, logic=None):
-        head = ["(set-logic %s)" % (logic or self.logic())]
-        return "\n".join(head + self.lines + list(extra_lines)) + "\n"
+    def render(self, extra_lines, logic=None, dialect="lemma"):
+        out = ["(set-logic %s)" % (logic or self.logic())]
+        for ln in self.lines:
+            if isinstance(ln, tuple):
+                _, a, d, q, r = ln
+                if dialect == "divmod":
+                    out.append("(define-fun %s () Int (div %s %d))" % (q, a, d))
+                    out.append("(define-fun %s () Int (mod %s %d))" % (r, a, d))
+                else:
+                    out.append("(declare-fun %s () Int)" % q)
+                    out.append("(declare-fun %s () Int)" % r)
+                    out.append("(assert (and (= %s (+ (* %d %s) %s)) (<= 0 %s) (< %s %d)))" % (a, d, q, r, r, r, d))
+            else:
+                out.append(ln)
+        return "\n".join(out + list(extra_lines)) + "\n"
 
 
 def _atomic(t):
@@ -382,8 +394,24 @@ class Answer:
         return "<%s %s %.1fs>" % (self.solver, self.status, self.wall)
 
 
-def run_solver(name, path, timeout, mem_gb=6, extra_args=(), on_start=None, label=None):
+_SLOTS = [threading.BoundedSemaphore(4)]
+
+
+def set_parallelism(n):
+    """Upper bound on concurrently running solver processes (whatever thread pools the callers use)."""
+    _SLOTS[0] = threading.BoundedSemaphore(max(1, int(n)))
+
+
+def run_solver(name, path, timeout, mem_gb=6, extra_args=(), on_start=None, label=None, skip_if=None):
     """Run one solver binary on one file. status in sat|unsat|unknown|timeout|error|killed."""
+    sem = _SLOTS[0]
+    with sem:
+        if skip_if is not None and skip_if():
+            return Answer(label or name, "killed", 0.0, raw="", path=path)
+        return _run_solver(name, path, timeout, mem_gb, extra_args, on_start, label)
+
+
+def _run_solver(name, path, timeout, mem_gb=6, extra_args=(), on_start=None, label=None):
     s = SOLVERS[name]
     cmd = [s["bin"]] + s["args"] + list(extra_args)
     if name == "cvc5":
